@@ -192,7 +192,7 @@ theorem CInv_importDone {s : St} (pr un : Nat) (cr : List (Nat × List Nat)) (u 
 def tagMid (name : String) (snap : Tag) (newMatches : IdSet) (s : St) : St :=
   match sget s.tags name with
   | some ot =>
-    if ot.defn == snap.defn then
+    if ot.defn == snap.defn && ot.gen == snap.gen then  -- CHANGED (gen)
       let t : Tag := { snap with mat := newMatches, unc := [], color := ot.color, convs := ot.convs, refBy := ot.refBy }
       let s := t.convs.foldl (fun (s : St) c => { s with toconv := sins c (union ((sget s.toconv c).getD []) t.mat) s.toconv }) s
       let s := setTag s name t
@@ -332,7 +332,9 @@ def convMid (sets : List (String × IdSet)) (s : St) : St :=
     if !s.convs.contains c then s
     else
       let tags := s.tags.map fun (n, t) =>
-        if t.mfeat &&& fData == 0 && t.sfeat &&& fData == 0 then (n, t)
+        -- CHANGED (conv)
+        if t.sfeat &&& fData != 0 then (n, if ids.isEmpty then t else { t with unc := rangeSet s.all })
+        else if t.mfeat &&& fData == 0 then (n, t)
         else (n, { t with unc := union t.unc ids })
       { s with tags := tags, upd := union s.upd ids }) s
 
